@@ -1,9 +1,30 @@
 package main
 
-// EffectCfg configures the module-level effect pass (DESIGN 2.8).
+import (
+	"fmt"
+	"go/token"
+	"go/types"
+	"sort"
+	"strings"
+
+	"golang.org/x/tools/go/ssa"
+)
+
+// EffectCfg configures the module-level effect pass (DESIGN 2.8): frame conditions over all code
+// reachable from the entry points, checked function by function on the SSA of the real code.
 type EffectCfg struct {
-	Entries []string `json:"entries"`
-	Forbid  []string `json:"forbid"`
+	Entries          []string            `json:"entries"`            // function keys
+	ForbidCalls      []string            `json:"forbid_calls"`       // external functions (full names or "pkg." prefixes) with effects Clock / GlobalRand / Env
+	GuardedCalls     map[string][]string `json:"guarded_calls"`      // function key -> external callees allowed there because a discharged assert guards them
+	AllowMapRange    []string            `json:"allow_map_range"`    // functions whose map-range loops are order-insensitive (verified functional postcondition or justified)
+	AllowGlobalWrite []string            `json:"allow_global_write"` // functions that may write package-level state (initialisers)
+	AllowSpawn       []string            `json:"allow_spawn"`        // functions that may start goroutines
+	AllowBlocking    []string            `json:"allow_blocking"`     // functions that may block (goroutine bodies)
+	CheckBlocking    bool                `json:"check_blocking"`
+	CheckGlobals     bool                `json:"check_globals"`
+	CheckMapOrder    bool                `json:"check_map_order"`
+	CheckSpawn       bool                `json:"check_spawn"`
+	IgnorePackages   []string            `json:"ignore_packages"` // module packages not descended into (assumed), e.g. the generated parser
 }
 
 type effectVerdict struct {
@@ -13,6 +34,232 @@ type effectVerdict struct {
 	pos  string
 }
 
+func inList(l []string, s string) bool {
+	for _, x := range l {
+		if x == s {
+			return true
+		}
+	}
+	return false
+}
+
+func isModuleFn(f *ssa.Function) bool {
+	for f.Parent() != nil {
+		f = f.Parent()
+	}
+	if f.Origin() != nil {
+		f = f.Origin()
+	}
+	return f.Pkg != nil && strings.HasPrefix(f.Pkg.Pkg.Path(), modulePath)
+}
+
 func runEffects(env *Env, cfg *EffectCfg) ([]effectVerdict, map[string]any) {
-	return nil, map[string]any{"status": "not built"}
+	var out []effectVerdict
+	reach := map[*ssa.Function]bool{}
+	var work []*ssa.Function
+	add := func(f *ssa.Function) {
+		if f == nil {
+			return
+		}
+		if f.Origin() != nil {
+			f = f.Origin()
+		}
+		if !isModuleFn(f) || reach[f] || len(f.Blocks) == 0 {
+			return
+		}
+		top := f
+		for top.Parent() != nil {
+			top = top.Parent()
+		}
+		for _, ig := range cfg.IgnorePackages {
+			if top.Pkg != nil && top.Pkg.Pkg.Name() == ig {
+				return
+			}
+		}
+		reach[f] = true
+		work = append(work, f)
+	}
+	for _, k := range cfg.Entries {
+		f := env.findFunction(k)
+		if f == nil {
+			out = append(out, effectVerdict{name: "effects#binding:" + k, ok: false, why: "entry point " + k + " does not exist"})
+			continue
+		}
+		add(f)
+	}
+	// module named types, for resolving interface calls (class hierarchy analysis)
+	var named []types.Type
+	for _, sp := range env.modulePackages() {
+		for _, m := range sp.Members {
+			if t, ok := m.(*ssa.Type); ok {
+				named = append(named, t.Type(), types.NewPointer(t.Type()))
+			}
+		}
+	}
+	externalCalls := map[string]bool{}
+	nInstr := 0
+	for len(work) > 0 {
+		f := work[len(work)-1]
+		work = work[:len(work)-1]
+		key := funcKey(f)
+		for _, b := range f.Blocks {
+			for _, in := range b.Instrs {
+				nInstr++
+				// function values used as operands are callable later
+				for _, op := range in.Operands(nil) {
+					if op == nil || *op == nil {
+						continue
+					}
+					if fn, ok := (*op).(*ssa.Function); ok {
+						add(fn)
+					}
+				}
+				pos := env.position(in.Pos())
+				switch x := in.(type) {
+				case *ssa.MakeClosure:
+					add(x.Fn.(*ssa.Function))
+				case *ssa.Go:
+					if cfg.CheckSpawn {
+						out = append(out, effectVerdict{name: fmt.Sprintf("%s#effect:Spawn@%s", key, pos), ok: inList(cfg.AllowSpawn, key), why: "starts a goroutine", pos: pos})
+					}
+					effCall(env, cfg, x.Common(), key, pos, named, add, &out, externalCalls)
+				case *ssa.Call:
+					effCall(env, cfg, x.Common(), key, pos, named, add, &out, externalCalls)
+				case *ssa.Defer:
+					effCall(env, cfg, x.Common(), key, pos, named, add, &out, externalCalls)
+				case *ssa.Store:
+					if cfg.CheckGlobals {
+						if g := rootGlobal(x.Addr); g != nil && isModuleGlobal(g) {
+							ok := inList(cfg.AllowGlobalWrite, key) || f.Name() == "init" || strings.HasPrefix(f.Name(), "init#")
+							out = append(out, effectVerdict{name: fmt.Sprintf("%s#effect:global-write@%s", key, pos), ok: ok, why: "writes package-level variable " + g.Name(), pos: pos})
+						}
+					}
+				case *ssa.MapUpdate:
+					if cfg.CheckGlobals {
+						if g := loadedFromGlobal(x.Map); g != nil && isModuleGlobal(g) {
+							ok := inList(cfg.AllowGlobalWrite, key) || f.Name() == "init"
+							out = append(out, effectVerdict{name: fmt.Sprintf("%s#effect:global-write@%s", key, pos), ok: ok, why: "updates a map held in package-level variable " + g.Name(), pos: pos})
+						}
+					}
+				case *ssa.Range:
+					if cfg.CheckMapOrder {
+						if _, isMap := x.X.Type().Underlying().(*types.Map); isMap {
+							out = append(out, effectVerdict{name: fmt.Sprintf("%s#effect:MapOrder@%s", key, pos), ok: inList(cfg.AllowMapRange, key), why: "iterates over a map (iteration order is unspecified)", pos: pos})
+						}
+					}
+				case *ssa.Select:
+					if cfg.CheckBlocking {
+						out = append(out, effectVerdict{name: fmt.Sprintf("%s#effect:MayBlock@%s", key, pos), ok: !x.Blocking || inList(cfg.AllowBlocking, key), why: "blocking select", pos: pos})
+					}
+				case *ssa.UnOp:
+					if cfg.CheckBlocking && x.Op == token.ARROW {
+						out = append(out, effectVerdict{name: fmt.Sprintf("%s#effect:MayBlock@%s", key, pos), ok: inList(cfg.AllowBlocking, key), why: "blocking channel receive", pos: pos})
+					}
+				case *ssa.Send:
+					if cfg.CheckBlocking {
+						// a send is non-blocking only if the function's VC proves count < cap (obligation effect:send-never-blocks)
+						d := env.funcC[key]
+						ok := d != nil || inList(cfg.AllowBlocking, key)
+						out = append(out, effectVerdict{name: fmt.Sprintf("%s#effect:MayBlock@%s", key, pos), ok: ok, why: "channel send in a function without a contract (no send-never-blocks obligation)", pos: pos})
+					}
+				}
+			}
+		}
+	}
+	var fns []string
+	for f := range reach {
+		fns = append(fns, funcKey(f))
+	}
+	sort.Strings(fns)
+	okN := 0
+	for _, v := range out {
+		if v.ok {
+			okN++
+		}
+	}
+	info := map[string]any{"reachable_functions": len(fns), "functions": fns, "instructions_scanned": nInstr,
+		"effect_sites_checked": len(out), "effect_sites_ok": okN, "external_callees_seen": keys(externalCalls)}
+	return out, info
+}
+
+func effCall(env *Env, cfg *EffectCfg, c *ssa.CallCommon, key, pos string, named []types.Type, add func(*ssa.Function), out *[]effectVerdict, ext map[string]bool) {
+	if c.IsInvoke() {
+		// class hierarchy analysis restricted to module types
+		iface, _ := c.Value.Type().Underlying().(*types.Interface)
+		if iface == nil {
+			return
+		}
+		for _, t := range named {
+			if types.Implements(t, iface) {
+				ms := env.prog.MethodSets.MethodSet(t)
+				if sel := ms.Lookup(c.Method.Pkg(), c.Method.Name()); sel != nil {
+					add(env.prog.MethodValue(sel))
+				}
+			}
+		}
+		return
+	}
+	var fn *ssa.Function
+	switch v := c.Value.(type) {
+	case *ssa.Function:
+		fn = v
+	case *ssa.MakeClosure:
+		fn = v.Fn.(*ssa.Function)
+	}
+	if fn == nil {
+		return // function value: its possible targets were added when their address was taken
+	}
+	if isModuleFn(fn) {
+		add(fn)
+		return
+	}
+	name := extName(fn)
+	ext[name] = true
+	for _, fb := range cfg.ForbidCalls {
+		if name == fb || (strings.HasSuffix(fb, ".") && strings.HasPrefix(name, fb) && !strings.HasPrefix(name, "(")) {
+			guarded := inList(cfg.GuardedCalls[key], name)
+			why := "calls " + name + " (effect outside the function's declared set)"
+			if guarded {
+				// the guard must exist as an assert clause anchored at this call in the function's contract
+				d := env.funcC[key]
+				found := false
+				if d != nil {
+					for _, cl := range d.Clauses {
+						if cl.Kind == "assert" && calleeMatches(cl.Callee, name) {
+							found = true
+						}
+					}
+				}
+				guarded = found
+				why = "calls " + name + " under a guard that is an obligation of " + key
+			}
+			*out = append(*out, effectVerdict{name: fmt.Sprintf("%s#effect:%s@%s", key, name, pos), ok: guarded, why: why, pos: pos})
+		}
+	}
+}
+
+func rootGlobal(v ssa.Value) *ssa.Global {
+	for {
+		switch x := v.(type) {
+		case *ssa.Global:
+			return x
+		case *ssa.FieldAddr:
+			v = x.X
+		case *ssa.IndexAddr:
+			v = x.X
+		default:
+			return nil
+		}
+	}
+}
+
+func loadedFromGlobal(v ssa.Value) *ssa.Global {
+	if u, ok := v.(*ssa.UnOp); ok && u.Op == token.MUL {
+		return rootGlobal(u.X)
+	}
+	return nil
+}
+
+func isModuleGlobal(g *ssa.Global) bool {
+	return g.Pkg != nil && strings.HasPrefix(g.Pkg.Pkg.Path(), modulePath) && g.Name() != "init$guard"
 }
